@@ -80,6 +80,10 @@ def jobs(tier):
     for version in (1, 2, 3):       # legal names that contain '..'
         out.append(("v%d.nested3~dotdot.P16384.intact" % version, "job_recheck",
                     dict(prop="C05", version=version, shape="nested3~dotdot", P=16384, K=1, dmg=["intact"] * 3, source="ref")))
+    for source in ("ref", "own"):       # piece-aligned v1, two padding entries of the same length (equal names .pad/N)
+        out.append(("v1.nested3.P16384.aligned.%s.equal-gaps" % source, "job_recheck",
+                    dict(prop="C05", version=1, shape="nested3", P=16384, K=2, dmg=["intact", "intact", "intact"], source=source, aligned=True,
+                         pinned={"s0": 16384 + 100, "s1": 100, "s2": 16384 + 7})))
     out.extend(rk.matrix_rows(tier, "C05"))
     for cpath in ("root", "parent"):     # a v1 file list that is not grouped by directory (as other tools write them)
         out.append(("v1.ungrouped3.P16384.%s.ref" % cpath, "job_recheck",
